@@ -1,5 +1,6 @@
 //! unit: u14b
-//! properties: C14
+//! properties: C14 C13
+//! note: also run for C13: the code it constrains lies inside mechanisms those properties name (a change made there for their sake must meet these clauses too)
 //! note: the per-hop instructions the sender puts in the onion: build_onion_payloads_callback (amount to forward, outgoing expiry and next channel of every hop; the final hop's amount and expiry; the totals the sender must lock in)
 //! trusted: R5: the generics are instantiated as at the payment call site: H = reversed iterator over a Vec<RouteHop> (hop = &hops[n-1-idx]), OP = the Payload enum below (a field skeleton of msgs::OutboundOnionPayload keeping amounts, expiries and next-hop ids; its new_* constructors are written here from the `impl OnionPayload for msgs::OutboundOnionPayload` in the same file and are NOT extracted: recipient fields, keysend preimage, encrypted TLVs and packets are dropped), F = "insert into the result vector at the back / at the front" (what build_onion_payloads's closure does); PathHop accessors of &RouteHop are extracted
 //! trusted: R6: `for (idx, hop) in hops.rev().enumerate()` and `for (i, blinded_hop) in hops.iter().enumerate()` become index loops with inductive invariants (the function carries #[verifier::loop_isolation(false)]: facts about variables a loop does not modify need not be restated); push_back / push_front are external_body wrappers of Vec::push / Vec::insert(0, _) with the sequence semantics
